@@ -32,8 +32,10 @@ func rpo(fn *ssa.Function) []*ssa.BasicBlock {
 	var dfs func(b *ssa.BasicBlock)
 	dfs = func(b *ssa.BasicBlock) {
 		seen[b] = true
-		for _, s := range b.Succs {
-			if !seen[s] {
+		// successors in reverse: a loop's exit is then finished first, so that in
+		// the reversed order the loop body directly follows its head
+		for i := len(b.Succs) - 1; i >= 0; i-- {
+			if s := b.Succs[i]; !seen[s] {
 				dfs(s)
 			}
 		}
@@ -265,7 +267,7 @@ func (f *Frame) mergeStates(preds []*ssa.BasicBlock, edges []string) *State {
 				term = Ite(edges[i], t, term)
 			}
 		}
-		st.m[k] = f.vc.define(k+"@b", f.vc.eng.keySort[k], term)
+		st.m[k] = f.vc.defineMerged(k+"@b", f.vc.eng.keySort[k], term)
 	}
 	return st
 }
@@ -311,6 +313,13 @@ func (f *Frame) loopHead(li *loopInfo, preds []*ssa.BasicBlock, edges []string) 
 		f.cur.m[k] = nv
 		if k == "alloc" {
 			vc.assume(S("<=", f.get(entryState, k), nv))
+		}
+	}
+	for _, k := range mk {
+		if nv, ok := f.cur.m[k]; ok {
+			if wf := vc.heapWF(k, nv, f.get(f.cur, vc.allocKey())); wf != "" {
+				vc.assume(wf)
+			}
 		}
 	}
 	headPhis := map[*ssa.Phi]string{}
@@ -458,6 +467,28 @@ func (f *Frame) backEdge(li *loopInfo, from *ssa.BasicBlock, cond string) {
 			}
 		}
 	}
+	// vacuity: the assumptions along this iteration (invariants, callee
+	// postconditions, frames) must not be contradictory
+	if li.spec != nil && (len(li.spec.Invs) > 0 || len(li.spec.BodyEns) > 0) {
+		f.probeAt(fmt.Sprintf("loop%d/iteration-vacuity", li.n), cond)
+	}
+	// once every back edge of the loop has been seen its obligations are
+	// complete: emit them here so that their prefix ends with the loop body
+	li.seenBacks++
+	if li.seenBacks >= len(li.backs) && (li.spec == nil || len(li.spec.BodyRet) == 0) {
+		f.flushLoop(li)
+	}
+}
+
+// flushLoop emits the obligations collected so far for one loop.
+func (f *Frame) flushLoop(li *loopInfo) {
+	save := f.curReach
+	f.curReach = "true"
+	for _, p := range li.pending {
+		f.oblige(p.kind, p.name, And(p.goals...), p.text, token.NoPos)
+	}
+	li.pending = nil
+	f.curReach = save
 }
 
 func (li *loopInfo) addPending(name, kind, goal, text string) {
@@ -777,6 +808,11 @@ func (f *Frame) havocAll(st *State, why string) {
 		f.set(st, k, nv)
 		if k == "alloc" {
 			vc.assume(S("<=", old, nv))
+		}
+	}
+	for _, k := range keys {
+		if wf := vc.heapWF(k, f.get(st, k), f.get(st, vc.allocKey())); wf != "" {
+			vc.assume(wf)
 		}
 	}
 }
